@@ -9,6 +9,7 @@ import (
 	"sort"
 	"strconv"
 	"strings"
+	"sync"
 
 	"github.com/mattn/anko/env"
 	"github.com/mattn/anko/parser"
@@ -30,6 +31,17 @@ type Obs struct {
 	// MapKeyAt[i] is set when trace entry i was written by v(...) with a
 	// string first argument (used to follow the map iteration order).
 	keyAt map[int]string
+	// mu guards Trace and keyAt: a defect that lets one run's deferred or pending
+	// calls execute inside another run of the same process (a process-wide pool,
+	// say) makes two goroutines log into one Obs; the harness must survive that
+	// and show it as a wrong trace, not crash
+	mu sync.Mutex
+}
+
+func (o *Obs) log(s string) {
+	o.mu.Lock()
+	o.Trace = append(o.Trace, s)
+	o.mu.Unlock()
 }
 
 // RenderGo renders a Go value produced by the interpreter with the rules of ir.Render.
@@ -101,10 +113,10 @@ func NewEnv(obs *Obs) *env.Env {
 	obs.keyAt = map[int]string{}
 	e.Define("p", func(a ...interface{}) interface{} {
 		if len(a) == 0 {
-			obs.Trace = append(obs.Trace, "p()")
+			obs.log("p()")
 			return nil
 		}
-		obs.Trace = append(obs.Trace, RenderGo(a[0]))
+		obs.log(RenderGo(a[0]))
 		if len(a) > 1 {
 			return a[1]
 		}
@@ -112,8 +124,10 @@ func NewEnv(obs *Obs) *env.Env {
 	})
 	counts := map[int64]int{}
 	e.Define("t", func(id int64, seq []interface{}) interface{} {
+		obs.mu.Lock()
 		n := counts[id]
 		counts[id] = n + 1
+		obs.mu.Unlock()
 		if len(seq) == 0 {
 			return nil
 		}
@@ -122,7 +136,7 @@ func NewEnv(obs *Obs) *env.Env {
 	e.Define("v", func(a ...interface{}) interface{} {
 		if len(a) == 1 {
 			if er, ok := a[0].(error); ok {
-				obs.Trace = append(obs.Trace, "E="+er.Error())
+				obs.log("E=" + er.Error())
 				return nil
 			}
 		}
@@ -130,16 +144,18 @@ func NewEnv(obs *Obs) *env.Env {
 		for i, x := range a {
 			parts[i] = RenderGo(x)
 		}
+		obs.mu.Lock()
 		if len(a) > 0 {
 			if s, ok := a[0].(string); ok {
 				obs.keyAt[len(obs.Trace)] = s
 			}
 		}
 		obs.Trace = append(obs.Trace, "v:"+strings.Join(parts, ","))
+		obs.mu.Unlock()
 		return nil
 	})
 	e.Define("boom", func(id int64) interface{} {
-		obs.Trace = append(obs.Trace, "boom"+strconv.FormatInt(id, 10))
+		obs.log("boom" + strconv.FormatInt(id, 10))
 		panic(fmt.Errorf("boom %d", id))
 	})
 	e.Define("nilfn", (func())(nil))
@@ -234,6 +250,9 @@ func FuelFor(steps int) int64 { return int64(4*steps + 64) }
 // It returns "" when they agree, else a description whose first word is the
 // kind of divergence: trace, result, error, nontermination or panic.
 func Diff(exp *ir.Outcome, obs *Obs) (kind, detail string) {
+	obs.mu.Lock()
+	trace := append([]string(nil), obs.Trace...)
+	obs.mu.Unlock()
 	if obs.ParseErr != "" {
 		return "parse", "the parser rejected the program: " + obs.ParseErr
 	}
@@ -241,19 +260,19 @@ func Diff(exp *ir.Outcome, obs *Obs) (kind, detail string) {
 		return "panic", "panic reached the harness: " + obs.Panic
 	}
 	if obs.Interrupted {
-		return "nontermination", fmt.Sprintf("reference ends after %d steps with trace %v; implementation still running after %d polls, trace so far %v", exp.Steps, exp.Trace, obs.Polls, clip(obs.Trace))
+		return "nontermination", fmt.Sprintf("reference ends after %d steps with trace %v; implementation still running after %d polls, trace so far %v", exp.Steps, exp.Trace, obs.Polls, clip(trace))
 	}
 	n := len(exp.Trace)
-	if len(obs.Trace) < n {
-		n = len(obs.Trace)
+	if len(trace) < n {
+		n = len(trace)
 	}
 	for i := 0; i < n; i++ {
-		if !ir.MatchEntry(exp.Trace[i], obs.Trace[i]) {
-			return "trace", fmt.Sprintf("trace differs at entry %d: expected %v, got %v", i, exp.Trace, clip(obs.Trace))
+		if !ir.MatchEntry(exp.Trace[i], trace[i]) {
+			return "trace", fmt.Sprintf("trace differs at entry %d: expected %v, got %v", i, exp.Trace, clip(trace))
 		}
 	}
-	if len(exp.Trace) != len(obs.Trace) {
-		return "trace", fmt.Sprintf("trace length differs: expected %v, got %v", exp.Trace, clip(obs.Trace))
+	if len(exp.Trace) != len(trace) {
+		return "trace", fmt.Sprintf("trace length differs: expected %v, got %v", exp.Trace, clip(trace))
 	}
 	switch exp.Status {
 	case ir.Failed:
